@@ -369,6 +369,9 @@ def _c18(tier):
         J('C18', 'mirirel/disjoint', 'mirirel', 'eng_disjoint', '--tiny --maxj %d' % q(tier, 2, 3), 8, 1, light=True, timeout=q(tier, 1500, 7200), covp='dj/'),
         # "uphold every other guarantee (ownership ...)" includes panic safety: a single-shot panic at every callback tick of insert_unchecked
         J('C18', 'dbg/fault', 'dbg', 'eng_panic', '--fam track --only-op insert_unchecked --space 0,1,2,3,4 --big %d' % q(tier, 20000, 2000000), 2, 1, covp='pf/'),
+        # a key comparison that unwinds in the middle of a batch lookup, then batch lookups on the survivor
+        J('C18', 'dbg/fault-disjoint', 'dbg', 'eng_panic', '--fam track --only-op get_disjoint_mut --space 0,1,2,3,4', 2, 1, covp='pd/'),
+        J('C18', 'rel-std/fault-disjoint', 'rel-std', 'eng_panic', '--fam track --only-op get_disjoint_mut --space 0,1,2,3,4', 2, 1, covp='pd/'),
         J('C18', 'rel/fault', 'rel', 'eng_panic', '--fam track --only-op insert_unchecked --space 0,1,2,3,4 --big %d' % q(tier, 20000, 2000000), 2, 1, covp='pf/'),
     ]
     return jobs
@@ -467,6 +470,11 @@ def _c03(tier):
         J('C03', 'rel/framed', 'rel', 'eng_full', '--fam track,copy,large,zst,tiny,word,odd,k12,align', 6, q(tier, 200, 12000)),
         J('C03', 'dbg/heap-elems', 'dbg', 'eng_full', '--fam raw,heap', 2, q(tier, 60, 3000)),
         J('C03', 'rel/heap-elems', 'rel', 'eng_full', '--fam raw,heap', 2, q(tier, 200, 12000)),
+        # every insertion path of the history engines (incl. steps executed while the thread unwinds) on every
+        # element family: a new key added to a full container without a panic (h/ and hs/ rows)
+        J('C03', 'dbg/hist-map', 'dbg', 'eng_map', '--fam track,track,copy,zst,tiny,word,odd,k12,large,path', 4, q(tier, 60_000, 1_500_000), covp='h/'),
+        J('C03', 'rel/hist-map', 'rel', 'eng_map', '--fam track,track,copy,zst,tiny,word,odd,k12,large,path', 4, q(tier, 200_000, 6_000_000), covp='h/'),
+        J('C03', 'rel/hist-set', 'rel', 'eng_set', '--fam track,track,copy,zst,tiny,word,odd,k12,large,path', 4, q(tier, 200_000, 6_000_000), covp='hs/'),
         J('C03', 'miri/track', 'miri', 'eng_full', '--fam track,zst,raw', 8, q(tier, 1, 6), light=True, timeout=q(tier, 1500, 7200)),
         J('C03', 'mirirel/track', 'mirirel', 'eng_full', '--fam track,zst,raw', 8, q(tier, 1, 6), light=True, timeout=q(tier, 1500, 7200)),
     ]
